@@ -960,7 +960,9 @@ pub fn run(cfg: &Cfg) -> Outcome {
     let mut o = Outcome::new(local, rule);
     o.min_evaluations = 200;
     o.min_classes = 30;
-    if stores < 50 {
+    if cfg.only_case.is_some() {
+        // replay of a single scenario: no floors
+    } else if stores < 50 {
         o.inconclusive = Some(format!("only {} C-STORE requests were received", stores));
     } else if watchdogs * 5 > n {
         o.inconclusive = Some(format!("{} scenarios hit a watchdog", watchdogs));
